@@ -425,4 +425,20 @@ PROPS = {
                   "refuted on the faithful model by F-04/F-05/F-14 with the exact exception classes proved",
         "engine_info": _INFO,
     },
+    "C04": {
+        "engines": [ENGINE],
+        "witness": {
+            "F-04-topic-vad": (ENGINE, _W + " s 2 sub 0 1 cls 0 1 ds 1 try 0 pub 0 1 8 try 0", "C04:value-after-disc-live-sender"),
+            "F-04-topic-reopen": (ENGINE, _W + " s 2 sub 0 1 xs 0 cls 0 1 try 0 pub 1 1 8 try 0", "C04:value-after-disc-clone-of-closed"),
+            "F-07-topic-dclose": (ENGINE, _W + " s 2 clr 0 1 xr 0 cvr 0 xr 0", "C04:double-close-after-conv"),
+            "F-07-topic-live": (ENGINE, _W + " a 2 clr 0 1 xr 0 dr 0 pub 0 0 1", "C04:closed-with-live-rx-double-dec"),
+            "F-07-topic-last": (ENGINE, _W + " a 2 xr 0 dr 0 pub 0 0 1", "C04:send-after-last-rx-double-dec"),
+            "F-03-topic": (ENGINE, _W + " s 2 xr 0 try 0", "C04:closed-rx-accepts"),
+        },
+        "assumptions": _ASSUME,
+        "covers": "topic (sync+async): value-after-Disconnected, send fails iff no open receiver handle, close idempotence, "
+                  "closed sender handle rejects -- proved for the patched model (F-04, F-07), refuted on the faithful model "
+                  "with exception classes; closed receiver handle accepts receives (F-03) refuted, no patch",
+        "engine_info": _INFO,
+    },
 }
